@@ -411,6 +411,53 @@ def gen_params():
     js = join_consts(T.ReaderThread.stop)
     out.append(f"Definition p_join_sender : Z := {micros(jl[0]) if len(jl) == 1 and jl[0] is not None else -1}.")
     out.append(f"Definition p_join_reader : Z := {micros(js[0]) if len(js) == 1 and js[0] is not None else -1}.")
+
+    # close() / connect() of YncaConnection, for Model/Reconnect.v: does close() clear the protocol's disconnect
+    # callback (an assignment `<x>._disconnect_callback = None` on its straight path, i.e. not only inside the branch
+    # for one kind of calling thread), does connect()'s wrapper test `_closed` before calling the user's callback, does
+    # connect() reset `_closed`.  Anything not found reads as false (fail-closed).
+    def fdef_of(fn):
+        return ast.parse(textwrap.dedent(inspect.getsource(fn))).body[0]
+
+    def is_self_attr(t, name):
+        return isinstance(t, ast.Attribute) and t.attr == name and isinstance(t.value, ast.Name) and t.value.id == "self"
+
+    def assigns_const(stmts, pred, const):
+        """an assignment target satisfying pred with the constant value, anywhere below stmts"""
+        for st in stmts:
+            for n in ast.walk(st):
+                if isinstance(n, ast.Assign) and isinstance(n.value, ast.Constant) and n.value.value is const:
+                    if any(pred(t) for t in n.targets):
+                        return True
+        return False
+
+    clears = wrapper_checks = rearms = False
+    try:
+        cdef = fdef_of(C.YncaConnection.close)
+        # the clearing must not depend on WHICH thread calls: statements guarded by a test that mentions
+        # current_thread are left out
+        def thread_guarded(st):
+            return isinstance(st, ast.If) and any(isinstance(x, ast.Attribute) and x.attr == "current_thread" for x in ast.walk(st.test))
+
+        plain = [st for st in cdef.body if not thread_guarded(st)]
+        clears = assigns_const(plain, lambda t: isinstance(t, ast.Attribute) and t.attr == "_disconnect_callback", None)
+        kdef = fdef_of(C.YncaConnection.connect)
+        rearms = assigns_const(kdef.body, lambda t: is_self_attr(t, "_closed"), False)
+        for n in ast.walk(kdef):
+            if isinstance(n, ast.FunctionDef) and n is not kdef:
+                for i in ast.walk(n):
+                    if isinstance(i, ast.If):
+                        names = [x for x in ast.walk(i.test) if isinstance(x, ast.UnaryOp) and isinstance(x.op, ast.Not) and is_self_attr(x.operand, "_closed")]
+                        calls = [x for x in ast.walk(i) if isinstance(x, ast.Call) and isinstance(x.func, ast.Name) and x.func.id == "disconnect_callback"]
+                        other_calls = [x for x in ast.walk(n) if isinstance(x, ast.Call) and isinstance(x.func, ast.Name) and x.func.id == "disconnect_callback" and x not in calls]
+                        if names and calls and not other_calls:
+                            wrapper_checks = True
+    except Exception:  # noqa: unreadable -> all false
+        pass
+    b = lambda x: "true" if x else "false"  # noqa: E731
+    out.append(f"Definition p_close_clears_cb : bool := {b(clears)}.")
+    out.append(f"Definition p_wrapper_checks_closed : bool := {b(wrapper_checks)}.")
+    out.append(f"Definition p_connect_rearms : bool := {b(rearms)}.")
     return "\n".join(out) + "\n"
 
 
